@@ -121,6 +121,25 @@ def random_history(rng, k, reuse=None):
                 c = rng.choice([2, 3])
                 reponly[rid] = ('f', [101000 + c])
             d_defs.append(dict(id=rid, name='REPLICATION ONLY %d' % rid, members=reponly[rid][1]))
+    # nested NCEP layout: OUTER = .. rid LEVEL .., LEVEL = .. rid' INNER ..: the adopted descriptor is itself a sequence
+    # containing a replication-only sequence (the repair has to reach every level)
+    nested_top = None
+    if reponly and rng.random() < 0.6:
+        def new_sid():
+            while True:
+                sid = 300000 + rng.randrange(48, 60) * 1000 + rng.randrange(1, 256)
+                if sid not in seqs and sid not in reponly:
+                    return sid
+        inner_target = rng.choice(list(by_id) + [q for q in seqs if q not in reponly])
+        level = new_sid()
+        seqs[level] = dict(id=level, name='NESTED LEVEL %d' % level,
+                           members=[rng.choice(list(by_id)), rng.choice(list(reponly)), inner_target] + ([rng.choice(list(by_id))] if rng.random() < 0.5 else []))
+        d_defs.append(seqs[level])
+        outer = new_sid()
+        seqs[outer] = dict(id=outer, name='NESTED OUTER %d' % outer,
+                           members=([rng.choice(list(by_id))] if rng.random() < 0.5 else []) + [rng.choice(list(reponly)), level])
+        d_defs.append(seqs[outer])
+        nested_top = outer
     # the data template: new elements, new sequences, a standard element that is NOT redefined
     units = []
     for _ in range(rng.randint(1, 4)):
@@ -132,6 +151,8 @@ def random_history(rng, k, reuse=None):
         targets = list(by_id) + list(seqs)
         for rid in uses:
             units.insert(rng.randint(0, len(units)), [rid, rng.choice(targets)])
+    if nested_top is not None:
+        units.insert(rng.randint(0, len(units)), [nested_top] if rng.random() < 0.5 else [rng.choice(list(reponly)), nested_top])
     ids = [i for u in units for i in u]
     ids.append(7001)            # height of station: keeps its standard meaning (15 bits, ref -400, scale 0)
     std = {7001: dict(id=7001, unit='m', scale=0, ref=-400, nbits=15, kind='num'),
@@ -163,66 +184,65 @@ def random_history(rng, k, reuse=None):
         return 'e %d %s %d %d %d' % (e['id'], unit.encode().hex() or '-', e['scale'] if e['kind'] != 'str' else 0,
                                      e['ref'] if e['kind'] == 'num' else 0, e['nbits'])
 
-    def members_grouped(mem):
-        """[(None, [m]) | (replication id, body members)] following the FM-94 ownership rule"""
+    def toks_list(mem):
+        """model template tokens of a member list: FM-94 ownership for 1XXYYY, and the NCEP adoption rule (a
+        replication-only sequence replicates the descriptor that FOLLOWS it in the same list), at every level"""
         out, j = [], 0
         while j < len(mem):
             m = mem[j]
-            if 100000 <= m < 200000:
-                x = (m // 1000) % 100
-                out.append((m, mem[j + 1:j + 1 + x]))
-                j += 1 + x
-            else:
-                out.append((None, [m]))
-                j += 1
-        return out
-
-    def tokens_of(i):
-        if i in seqs:
-            parts = []
-            for rep, body in members_grouped(seqs[i]['members']):
-                if rep is None:
-                    parts.append(tokens_of(body[0]))
+            if m in reponly:
+                kind, rm = reponly[m]
+                body = toks_list([mem[j + 1]])
+                if kind == 'f':
+                    out.append('f %d ( %s )' % (rm[0], body))
                 else:
-                    parts.append('f %d ( %s )' % (rep, ' '.join(tokens_of(m) for m in body)))
-            return 's %d ( %s )' % (i, ' '.join(parts))
-        return tok_elem(by_id.get(i) or std[i])
-
-    def draw(i):
-        if i in seqs:
-            for rep, body in members_grouped(seqs[i]['members']):
-                for _ in range(1 if rep is None else rep % 1000):
-                    for m in body:
-                        draw(m)
-        else:
-            elem(by_id.get(i) or std[i])
-
-    top_toks = []
-    j = 0
-    while j < len(ids):
-        i = ids[j]
-        if i in reponly:
-            kind, mem = reponly[i]
-            target = ids[j + 1]
-            if kind == 'f':
-                for _ in range(mem[0] % 1000):
-                    draw(target)
-                top_toks.append('f %d ( %s )' % (mem[0], tokens_of(target)))
+                    out.append('d 101000 %s ( %s )' % (tok_elem(std[31001]), body))
+                j += 2
+            elif 100000 <= m < 200000:
+                x = (m // 1000) % 100
+                out.append('f %d ( %s )' % (m, toks_list(mem[j + 1:j + 1 + x])))
+                j += 1 + x
+            elif m in seqs:
+                out.append('s %d ( %s )' % (m, toks_list(seqs[m]['members'])))
+                j += 1
             else:
-                cnt = rng.choice([0, 1, 2, 3])
-                labels.append('031001')
-                bits += bits_of(cnt, 8)
-                expect.append(('i', cnt))
+                out.append(tok_elem(by_id.get(m) or std[m]))
+                j += 1
+        return ' '.join(out)
+
+    def draw_list(mem):
+        nonlocal bits
+        j = 0
+        while j < len(mem):
+            m = mem[j]
+            if m in reponly:
+                kind, rm = reponly[m]
+                if kind == 'f':
+                    cnt = rm[0] % 1000
+                else:
+                    cnt = rng.choice([0, 1, 2, 3])
+                    labels.append('031001')
+                    bits += bits_of(cnt, 8)
+                    expect.append(('i', cnt))
                 for _ in range(cnt):
-                    draw(target)
-                top_toks.append('d 101000 %s ( %s )' % (tok_elem(std[31001]), tokens_of(target)))
-            j += 2
-        else:
-            draw(i)
-            top_toks.append(tokens_of(i))
-            j += 1
+                    draw_list([mem[j + 1]])
+                j += 2
+            elif 100000 <= m < 200000:
+                x = (m // 1000) % 100
+                for _ in range(m % 1000):
+                    draw_list(mem[j + 1:j + 1 + x])
+                j += 1 + x
+            elif m in seqs:
+                draw_list(seqs[m]['members'])
+                j += 1
+            else:
+                elem(by_id.get(m) or std[m])
+                j += 1
+
+    draw_list(ids)
+    top_toks = [toks_list(ids)]
     toks = '( ' + ' '.join(top_toks) + ' )'
-    return dict(reponly=sorted(reponly), k=k, b_defs=b_defs, d_defs=d_defs, ids=ids, bits=bits, expect=expect, labels=labels, toks=toks)
+    return dict(reponly=sorted(reponly), nested=nested_top is not None, k=k, b_defs=b_defs, d_defs=d_defs, ids=ids, bits=bits, expect=expect, labels=labels, toks=toks)
 
 
 CHILD = r'''
@@ -343,6 +363,8 @@ def run(ctx):
         ctx.dist['data message centre %d local tables %d' % h['centre_ltv']] += 1
         if h['reponly']:
             ctx.dist['replication-only-sequences (NCEP)'] += 1
+        if h.get('nested'):
+            ctx.dist['nested replication-only sequences (adopted descriptor is a sequence containing one)'] += 1
         if 'err' in res or len(res['ok']) != 2:
             ctx.violation({'kind': 'C20-stream-failed', 'case': case, 'result': str(res)[:400]},
                           'definition + data stream did not decode: %s' % str(res.get('err'))[:200])
